@@ -102,6 +102,7 @@ type runner struct {
 	async    []uint64
 	mainGoid int64
 	idx      int
+	waits    int
 	script   []step
 	cancel   context.CancelFunc
 	lastTo   uint64
@@ -142,6 +143,14 @@ func (r *runner) callbacks() *tbtc.VerifC11Callbacks {
 			}
 			if r.dkg {
 				r.idx++
+			}
+			r.waits++
+			if r.waits > len(r.script)+2 {
+				// the loop ran more iterations than scripted without consulting the block
+				// counter (never in the unchanged code): end it instead of spinning forever
+				r.rec("runaway")
+				r.cancel()
+				return errScripted
 			}
 			r.rec(fmt.Sprintf("w%d", b))
 			if r.cur().x == 'W' {
@@ -274,6 +283,8 @@ func tagOf(trace string, sc []step) string {
 func exec(op string) (string, string) {
 	f := strings.Fields(op)
 	switch {
+	case len(f) == 6 && f[0] == "ann":
+		return execAnn(f)
 	case len(f) == 6 && f[0] == "sloop":
 		n, thr, member := hx.Atoi(f[1]), hx.Atoi(f[2]), hx.Atoi(f[3])
 		s0 := hx.AtoU64(f[4])
@@ -601,7 +612,11 @@ func genDloop(r *hx.Rng) string {
 func gen(r *hx.Rng, n int, tier string) []string {
 	var out []string
 	for i := 0; i < n; i++ {
-		if r.Chance(2, 5) {
+		if r.Chance(1, 40) {
+			nn := r.Range(2, 12)
+			out = append(out, fmt.Sprintf("ann %d %d %d %s %d", nn, r.Range(1, nn), r.Range(0, nn-1),
+				hx.Pick(r, []string{"strict", "eager"}), r.Range(60, 200)))
+		} else if r.Chance(2, 5) {
 			out = append(out, genSloop(r))
 		} else if r.Chance(1, 3) {
 			out = append(out, genSloopx(r))
